@@ -2404,21 +2404,25 @@ namespace igris
             memset(_data, 0, sizeof(_data));
         }
 
-        static_vector(const static_vector &other)
+        // The constructors that construct elements delegate to
+        // static_vector() first: the object is then complete, and if an
+        // element constructor throws, ~static_vector() destroys the m_size
+        // elements constructed so far.
+        static_vector(const static_vector &other) : static_vector()
         {
-            m_size = other.m_size;
-            for (igris::size_t pos = 0; pos < m_size; ++pos)
+            for (igris::size_t pos = 0; pos < other.m_size; ++pos)
             {
                 new (&_data[pos]) T(other[pos]);
+                ++m_size;
             }
         }
 
-        static_vector(static_vector &&other)
+        static_vector(static_vector &&other) : static_vector()
         {
-            m_size = other.m_size;
-            for (igris::size_t pos = 0; pos < m_size; ++pos)
+            for (igris::size_t pos = 0; pos < other.m_size; ++pos)
             {
                 new (&_data[pos]) T(igris::move(other[pos]));
+                ++m_size;
             }
         }
 
